@@ -441,6 +441,9 @@ func (m *Message) AppendSignal(signal Signal) error {
 
 	m.addSignal(signal)
 
+	// the byte order of the signal is known only now
+	m.signalLayout.generateFilters()
+
 	return nil
 }
 
@@ -470,6 +473,9 @@ func (m *Message) InsertSignal(signal Signal, startBit int) error {
 	}
 
 	m.addSignal(signal)
+
+	// the byte order of the signal is known only now
+	m.signalLayout.generateFilters()
 
 	return nil
 }
